@@ -107,6 +107,7 @@ type sstate struct {
 	rebased string          // non-empty once the stack was truncated to a symbolic level: entry slots are no longer addressable
 	und     []string
 	undPos  []token.Pos
+	nmake   int // make() calls seen on this path (decision tables number them)
 }
 
 func newState() *sstate {
@@ -234,6 +235,7 @@ type symExec struct {
 	inlineAll       bool
 	primitive       map[*types.Func]bool // never inlined: recorded as events
 	noRet           map[*types.Func]int  // 1 = never returns (every path panics), 2 = returns
+	tableMode       bool                 // decision tables: loop control and allocation order are rendered
 	emitMode        bool                 // record loops as structured events, name labels
 	rangeBind       map[types.Object]val
 	callOverride    map[string]val  // decision-table enumeration: fixed result of an external call, by callee id
@@ -863,6 +865,10 @@ func (se *symExec) eval(e ast.Expr, st *sstate) []ev {
 				st.undecided(fl.Pos(), "closure manipulates the evaluation stack")
 			}
 			return one(st, val{kind: vUnknown, desc: "funclit", lit: fl})
+		}
+		if bl, ok := e.(*ast.BasicLit); ok && se.tableMode && (bl.Kind == token.STRING || bl.Kind == token.CHAR) && len(bl.Value) <= 48 {
+			// decision tables: short string constants (attribute names, messages) are part of the decision
+			return one(st, unk(bl.Value))
 		}
 		return one(st, unk("lit"))
 	case *ast.Ident:
@@ -1780,9 +1786,22 @@ func (se *symExec) loopHeader(n ast.Node) string {
 	case *ast.RangeStmt:
 		return "range " + se.canon(x.X)
 	case *ast.ForStmt:
+		h := "for"
 		if x.Cond != nil {
-			return "for " + se.canon(x.Cond)
+			h = "for " + se.canon(x.Cond)
 		}
+		if se.tableMode {
+			// decision tables: the whole loop control (initialisation; condition; step) is part of the decision
+			ini, post := "", ""
+			if x.Init != nil {
+				ini = strings.Join(strings.Fields(fullStmt(x.Init)), " ")
+			}
+			if x.Post != nil {
+				post = strings.Join(strings.Fields(fullStmt(x.Post)), " ")
+			}
+			return "for " + ini + "; " + strings.TrimPrefix(h, "for ") + "; " + post
+		}
+		return h
 	}
 	return "for"
 }
@@ -2180,6 +2199,10 @@ func (se *symExec) evalBuiltin(name string, call *ast.CallExpr, st *sstate) []pa
 				out = append(out, pathResult{r.st, []val{v}})
 			}
 			return out
+		}
+		if se.tableMode {
+			st.nmake++
+			return []pathResult{{st, []val{unk(fmt.Sprintf("make#%d", st.nmake))}}}
 		}
 		return []pathResult{{st, []val{unk("make")}}}
 	case "append":
